@@ -38,6 +38,8 @@ ENCODER = [
     enc(list(b'123456789012345678901234'), wl='3'), enc(list(b'n07fa839g 6llb0me11vtw3z31p66t7x8!'), wl='31'),
     enc(list(b'GUBBC!@%$%&%PRLVDXFIXPWBNQVCRDHJNTPZJBSKYVGVVPX')),
     enc([200] * 249), enc([200] * 250), enc([75] + [200] * 250 + [101, 110, 100]),
+    enc(list(b'4tzl6qs7msp4371778WL00')), enc(list(b'4tzl6qs7msp4371778WL00'), wl='26'),          # unbeatable strike blocks the optimal switch
+    enc(list(b'xv4jht72dri3115857\x1f\r\x1d\x01\x04\x01\x1e\x1d\x1f'), wl='7,14,17,19,22,27,32,34,35,38,42'),
 ]
 
 
